@@ -125,6 +125,8 @@ def run_case(case):
     for h in gone:
         del db[h]
         res.emit("hx.drop %s" % hx(h), "ok")
+        if r.free_sync:
+            res.emit("hx.fdrop %s" % hx(h), "ok")
 
     # expected result on the complete database (reference run on a copy)
     ref = HexaryTrie(dict(full), trie.root_hash, prune=False)
@@ -217,6 +219,17 @@ def run_case(case):
         if tg == "0" and kind == "get":
             res.emit("hx.getat %s %s" % (hx(state[1]), hx(key)), out)
             res.tags.add("raw-level-read-tied")
+            if r.free_sync:
+                res.emit("hx.fget %s" % hx(key), out)
+        if tg == "0" and kind in ("set", "del") and r.free_sync:
+            # the tree-free executor on its own copy of the damaged database: same outcome, same root, database and counts
+            res.emit("hx.fop %s %s" % (hx(key), (probe[2] or "-") if kind == "set" else "none"),
+                     out if exc is not None else "ok")
+            res.emit("hx.froot", hx(target.root_hash))
+            res.emit("hx.fdb", hexlib.fmt_db(db))
+            if target.is_pruning:
+                res.emit("hx.fcounts", hexlib.fmt_counts(target.ref_count))
+            res.tags.add("tree-free-executor-tied")
         if kind == "exists" and exc is None:
             # the model answers exists() through get(): compare the value's emptiness
             res.emit(line, "v " + hx(target.get(key)))
@@ -275,6 +288,8 @@ def run_case(case):
             break
         db[h] = full[h]
         res.emit("hx.put %s %s" % (hx(h), hx(full[h])), "ok")
+        if r.free_sync:
+            res.emit("hx.fput %s %s" % (hx(h), hx(full[h])), "ok")
     else:
         res.fail("retry-does-not-converge", "%r still fails after supplying %d nodes" % (probe, len(reported)))
     if batch_cm is not None:
